@@ -208,7 +208,12 @@ def _type_of_kind(d, kind, depth):
             out.append(c)
         return ir.mk(kind, comps=out)
     if kind in ('SEQUENCEOF', 'SETOF'):
-        return ir.mk(kind, of=draw_type(d, depth - 1, root=False))
+        of = draw_type(d, depth - 1, root=False)
+        if cfg.get('selfdesc') and kind == 'SETOF':
+            ft = ir.first_tags(of)
+            if ft is None or len(ft) > 1:
+                _retag(d, of, set())        # members of a SET OF must all carry the same tag
+        return ir.mk(kind, of=of)
     if kind == 'CHOICE':
         n = d.int(1, cfg['max_comps'])
         alts = [(draw_type(d, depth - 1, root=False, allow_any=False), 'req') for _ in range(n)]
